@@ -41,6 +41,15 @@ CHECKS = {
  "C16": dict(engine="E1 (dedicated invitation world) + rogue toolkit", category="exploration", technique="stateful property-based testing of invitation histories (valid, replayed under new wrapper ids, outsider-built for held group ids / with foreign group data, malformed) with per-call invariants",
    text="Generated histories over one recipient (memory or SQLite, optionally already in a second group): the admin's valid invitations, outsider-built invitations for a fresh MLS group id or the id of a group the recipient holds, carrying fresh or foreign Nostr group ids, eight kinds of malformed copies; each processed under up to three wrapper ids, repeatedly, accepted / declined / unanswered, interleaved with peer messages, removal, re-invitation and restarts. After every call: same wrapper => same welcome, nothing changes; same rumor under a new wrapper => stored welcome unchanged, nothing created; failed / declined / unanswered => no Active group; accept => inviter's post-commit state, Active, self-update Required and listed; groups Active before are identical after and still store a fresh peer message. Search, not proof.",
    note="Accepting an outsider's invitation for a group held Active is a listed finding (O29) and excluded from generation; the gift-wrap layer is outside mdk (wrapper ids are harness-chosen).", ref="DESIGN.md §4 C16"),
+ "C03": dict(engine="E1-world", category="exploration", technique="stateful property-based testing with content canaries; every observer (outsider, ex-member, late joiner) is offered every event",
+   text="Generated histories of adds, removals, leaves, self-updates, id rotations, races and replays with frequent messages; every client - never-invited outsiders, ex-members that keep their whole local state incl. past exporter secrets, late joiners - is offered every wrapper event forward and reversed until nothing changes. A message's content may be returned or stored only at a client whose identity was in the sender's member list when the message was created; after processing its own removal a client holds the group Inactive, cannot send and stores nothing more. Search, not proof.",
+   note="Confidentiality against an attacker with modified code is MLS's job; this check exercises what the library itself stores and returns. Membership of the sending epoch = the sender's member list at creation time.", ref="DESIGN.md §4 C03"),
+ "C11": dict(engine="E1-world (all SQLite)", category="exploration", technique="stateful property-based testing with generated restart positions; differential against a never-restarted twin opened on a copy of the database",
+   text="C01/C02-style histories on SQLite with restarts at arbitrary positions. (1) every restart leaves the API-visible fingerprint and pending welcomes identical; (2) a passive member is mirrored by a twin on a copy of its database that never restarts: fingerprints equal after every delivery; (3) restarted members converge and hold the winning branch's messages as C01/C02 demand. Search, not proof.",
+   note="Clean shutdown only; wall-clock fields are erased before comparing; the loss of rollback ability after a restart is listed finding O8.", ref="DESIGN.md §4 C11"),
+ "C20": dict(engine="E1-world", category="exploration", technique="stateful property-based testing with a reference model of the snapshot queue checked after every API call",
+   text="Commit-heavy generated histories (warm-up so that two-digit epochs occur, races, rollbacks, restarts) with retention 0..6 on both backends: after every call list_group_snapshots holds at most `retention` entries and exactly the (epoch, commit id) pairs of the client's most recent commits applied through process_message on its current branch; with a 1 s time-to-live a SQLite client restarted 2 s later comes up with no snapshot. Search, not proof.",
+   note="The model of the expected queue is the harness's; TTL is exercised with one small value because it needs real sleeps.", ref="DESIGN.md §4 C20"),
 }
 
 checks = []
@@ -72,7 +81,7 @@ manifest = {
     },
     "engines": [
         {"name": "E2-storemodel", "path": "/verif/harness/src/storemodel.rs", "serves_properties": ["C09", "C10", "C18"], "kind_free_text": "reference model of the storage contract + three-way differential over generated call sequences"},
-        {"name": "E1-world", "path": "/verif/harness/src/world.rs", "serves_properties": ["C01", "C02", "C04", "C05", "C07", "C08", "C18"], "kind_free_text": "simulated clients + relay + delivery scheduler over the real crates; proptest plans; reference replica"},
+        {"name": "E1-world", "path": "/verif/harness/src/world.rs", "serves_properties": ["C01", "C02", "C03", "C04", "C05", "C07", "C08", "C11", "C16", "C18", "C20"], "kind_free_text": "simulated clients + relay + delivery scheduler over the real crates; proptest plans; reference replica"},
     ],
     "checks": checks,
     "notes": "exit 0 held / 1 violation (VIOLATION line) / 2 inconclusive or infrastructure. Known findings: /verif/known_findings.json (witness plans are re-run on every check and printed as KNOWN-FINDING lines).",
